@@ -17,6 +17,9 @@ type BatchedPrivateIssuer struct {
 }
 
 func NewBatchedPrivateIssuer(key *oprf.PrivateKey) *BatchedPrivateIssuer {
+	// The key computes and caches its public key on first use; do that here so that
+	// concurrent calls on the issuer never race on the lazy initialisation.
+	key.Public()
 	return &BatchedPrivateIssuer{
 		tokenKey: key,
 	}
